@@ -58,6 +58,13 @@ CHECKS = {
             "(the solver finds e.g. '__main__\\x00' against a prefix test); the default filter is compared with an independent string-based "
             "predicate on all file names composed from library roots, textual siblings, components and allow-lists within the bound.",
             TRUST + "Symlinked roots, lru_cache staleness and enumeration of all installed code objects are outside the claim.", "DESIGN.md#C17"),
+    "C07": (True, "model_checking",
+            "symbolic execution of every shipped rewriter on tape-decoded types (CrossHair+z3), max_union_len symbolic; admits/trigger oracles",
+            "Every shipped rewriter, the default chain and all ordered pairs are executed symbolically on unions over arbitrary member subsets "
+            "(at several container positions), on a recursive type grammar and on types inferred from values; max_union_len is an "
+            "unconstrained solver integer. Asserted: no exception, the result admits everything the input admitted (witness values stay "
+            "members), and without the documented trigger the type is unchanged.",
+            TRUST + "The structural 'admits' relation and the trigger predicates are part of the trusted oracle.", "DESIGN.md#C07"),
 }
 
 NOT_APPLICABLE = {
